@@ -168,7 +168,7 @@ with pargs (fuel : nat) (ts : list token) {struct fuel} : option (list pexpr * l
   end.
 
 Definition parse_tokens (ts : list token) : option pexpr :=
-  match pe (4 * List.length ts + 8) 0 ts with Some (e, []) => Some e | _ => None end.
+  match pe (20 * List.length ts + 8) 0 ts with Some (e, []) => Some e | _ => None end.
 
 Definition parse (s : string) : option pexpr :=
   match lex (S (String.length s)) s with Some ts => parse_tokens ts | None => None end.
